@@ -61,36 +61,56 @@ def run(prog, rep, tier):
     rep.floor("R5.5", 8)
 
 
+def _matrix_bases(node):
+    """the matrices an expression is made of when only shape changes are undone: .T, [:, np.newaxis], both arms of a
+    conditional, and the trailing new-group column appended by column_stack / hstack"""
+    if isinstance(node, ast.Attribute) and node.attr == "T":
+        return _matrix_bases(node.value)
+    if isinstance(node, ast.IfExp):
+        return _matrix_bases(node.body) | _matrix_bases(node.orelse)
+    if isinstance(node, ast.Subscript) and unparse(node.slice) in ("(slice(None, None, None), np.newaxis)", "(slice(None, None, None), None)") or \
+            (isinstance(node, ast.Subscript) and unparse(node).endswith(("[:, np.newaxis]", "[:, None]"))):
+        return _matrix_bases(node.value)
+    if isinstance(node, ast.Call) and dotted(node.func) in ("np.column_stack", "np.hstack") and len(node.args) == 1 \
+            and isinstance(node.args[0], (ast.List, ast.Tuple)) and len(node.args[0].elts) == 2:
+        return _matrix_bases(node.args[0].elts[0])
+    return {unparse(node)}
+
+
 def r5_1(prog, rep):
-    for q in ("terms.terms.GroupSpecificTerm.set_data", "terms.terms.GroupSpecificTerm.eval_new_data"):
+    from .. import symexec as SX
+
+    for q, fac, eff in (("terms.terms.GroupSpecificTerm.set_data", "self.factor.data", "self.expr.data"),
+                        ("terms.terms.GroupSpecificTerm.eval_new_data", "self.factor.eval_new_data({d})", "self.expr.eval_new_data({d})")):
         f = prog.fn(q)
         kr = [x for x in calls_in(f.node) if dotted(x.func) in ("linalg.khatri_rao", "scipy.linalg.khatri_rao")]
         if len(kr) != 1:
             raise AnalysisError(f"{q}: expected one khatri_rao call")
-        args = [unparse(a) for a in kr[0].args]
+        d = f.params[1] if len(f.params) > 1 else "data"
+        fac, eff = fac.format(d=d), eff.format(d=d)
         # the product is transposed back
         parent_T = any(isinstance(n, ast.Attribute) and n.attr == "T" and n.value is kr[0] for n in ast.walk(f.node))
-        # what reaches the product: only the matrices of the factor / the effect (reshaped to 2-D; plus the new-group column at prediction)
-        fr = DF.Freshness(f)
-        at = fr.cfg.node_of(kr[0])
-        allowed = {
-            "Ji": {"Xi, Ji = (self.expr.data, self.factor.data)", "Ji = Ji[:, np.newaxis]", f"Ji = self.factor.eval_new_data({f.params[1]})",
-                   "Ji = np.column_stack([Ji, np.zeros((Ji.shape[0], 1), dtype='int')])"},
-            "Xi": {"Xi, Ji = (self.expr.data, self.factor.data)", "Xi = Xi[:, np.newaxis]", f"Xi = self.expr.eval_new_data({f.params[1]})"},
-        }
-        for var in ("Ji", "Xi"):
-            defs = fr.IN.get(at, {}).get(var, frozenset())
-            texts = sorted(unparse(fr.cfg.ast[d_]) if d_ != "param" else "param" for d_ in defs)
-            foreign = [t_ for t_ in texts if t_ not in allowed[var]]
-            obl(rep, f, kr[0], "R5.1", bool(defs) and not foreign,
-                f"{f.name}: `{var}` reaching the product is the {'factor indicator' if var == 'Ji' else 'effect'} matrix itself (only reshaped)", str(texts),
-                f"`{var}` is re-computed before the product by {foreign}: the block is no longer indicators(factor) x effect columns in the order of the labels")
-        obl(rep, f, kr[0], "R5.1", args == ["Ji.T", "Xi.T"] and parent_T,
-            f"{f.name}: Z = khatri_rao(Ji.T, Xi.T).T - group index major, effect column minor", str(args),
-            f"{f.name} builds khatri_rao({', '.join(args)}): the slot order (group slowest, effect fastest) is transposed relative to the labels")
-    f = prog.fn("terms.terms.GroupSpecificTerm.set_data")
-    d = {unparse(s.targets[0]): unparse(s.value) for s in walk_local(f.node) if isinstance(s, ast.Assign)}
-    obl(rep, f, f.node, "R5.1", d.get("(Xi, Ji)") == "(self.expr.data, self.factor.data)", "Xi is the effect's data, Ji the factor's indicator matrix", str(d.get("(Xi, Ji)")))
+        try:
+            ex = SX.SymExec(watch={dotted(kr[0].func)}, inline_displays=False).run(f.body)
+        except AnalysisError as e:
+            rep.defer(f"R5.1: {q}: {e}")
+            continue
+        w = [e for e in ex.effects if e[0] == "watch"]
+        if len(w) != 1 or len(w[0][1][1]) != 2:
+            rep.defer(f"R5.1: {q}: the khatri_rao call is evaluated {len(w)} time(s) in the abstract run")
+            continue
+        a0, a1 = (ast.parse(SX.render(v), mode="eval").body for v in w[0][1][1])
+        for label, node, want in (("factor indicator", a0, fac), ("effect", a1, eff)):
+            bases = _matrix_bases(node)
+            obl(rep, f, kr[0], "R5.1", bases == {want},
+                f"{f.name}: the {label} operand of the product is `{want}` itself (only reshaped)", str(sorted(bases)),
+                f"the {label} operand of the product is made of {sorted(bases)}: the block is no longer indicators(factor) x effect columns "
+                "in the order of the labels")
+        tr = [isinstance(n, ast.Attribute) and n.attr == "T" for n in (a0, a1)]
+        obl(rep, f, kr[0], "R5.1", all(tr) and parent_T and _matrix_bases(a0) == {fac},
+            f"{f.name}: Z = khatri_rao(<factor>.T, <effect>.T).T - group index major, effect column minor", "",
+            f"{f.name} builds khatri_rao({', '.join(unparse(a) for a in kr[0].args)}): the slot order (group slowest, effect fastest) is transposed "
+            "relative to the labels")
     lb = prog.fn("terms.terms.GroupSpecificTerm.labels")
     lcs = [n for n in ast.walk(lb.node) if isinstance(n, ast.ListComp) and len(n.generators) == 2]
     ok = len(lcs) == 1
